@@ -312,6 +312,8 @@ func (f rtFunc) RoundTrip(r *http.Request) (*http.Response, error) { return f(r)
 
 type ctxKey struct{}
 
+type stackKey string
+
 func runC12(c *cli.Ctx) error {
 	r := emit.NewRng(c.Seed)
 	// ---- stream codes: every status code in a window + random large ones
@@ -545,6 +547,113 @@ func runC12(c *cli.Ctx) error {
 		w.Add(emit.C(5, emit.S(m), emit.I(status), emit.B(fail), emit.B(reqNil),
 			emit.Tup(emit.I(count), emit.S(code), emit.S(meth), emit.S(who), emit.B(panicked), emit.B(rerr != nil), emit.I(dcount), emit.I(int(gm.Gauge.GetValue())))),
 			!fail, fmt.Sprintf("transport-fails:%v", fail), fmt.Sprintf("response.Request-nil:%v", reqNil))
+	}
+	if err := w.Flush(); err != nil {
+		return err
+	}
+	// ---- stream stack: two or three counter middlewares stacked around one handler, each with its own label layout
+	// (code?, method?, labels derived from the request context); several requests with different context values.
+	// Every request is counted exactly once by every middleware, under its own label tuple.
+	w = emit.NewWriter(c.Out, "C12", "stack")
+	for i := 0; i < 150*c.Scale; i++ {
+		nm := 2 + r.Intn(2)
+		type lay struct {
+			code, method bool
+			ctx          []string
+		}
+		lays := make([]lay, nm)
+		vecs := make([]*prometheus.CounterVec, nm)
+		var h http.Handler = http.HandlerFunc(func(rw http.ResponseWriter, req *http.Request) {
+			if st, _ := req.Context().Value(stackKey("status")).(int); st != 0 {
+				rw.WriteHeader(st)
+			}
+			rw.Write([]byte("x"))
+		})
+		for k := 0; k < nm; k++ {
+			l := lay{}
+			switch r.Intn(6) {
+			case 0: // completely unpartitioned
+			case 1:
+				l.ctx = []string{"who"}
+			case 2:
+				l.ctx = []string{"tenant", "who"}
+			case 3:
+				l.code = true
+				l.ctx = []string{"tenant"}
+			case 4:
+				l.code, l.method = true, true
+			default:
+				l.code, l.method = r.Bool(), r.Bool()
+				if r.Bool() {
+					l.ctx = []string{"who"}
+				}
+			}
+			var names []string
+			if l.code {
+				names = append(names, "code")
+			}
+			if l.method {
+				names = append(names, "method")
+			}
+			names = append(names, l.ctx...)
+			r3 := r.Fork()
+			sort.Slice(names, func(a, b int) bool { return r3.Bool() })
+			vecs[k] = prometheus.NewCounterVec(prometheus.CounterOpts{Name: fmt.Sprintf("c%d", k)}, names)
+			var opts []promhttp.Option
+			for _, n := range l.ctx {
+				n := n
+				opts = append(opts, promhttp.WithLabelFromCtx(n, func(ctx context.Context) string {
+					v, _ := ctx.Value(stackKey(n)).(string)
+					return v
+				}))
+			}
+			lays[k] = l
+			h = promhttp.InstrumentHandlerCounter(vecs[k], h, opts...)
+		}
+		nreq := 2 + r.Intn(3)
+		reqs := make([]string, nreq)
+		panicked := false
+		for q := 0; q < nreq; q++ {
+			m := methods[r.Intn(len(methods))]
+			st := []int{0, 200, 404, 500, 204, 301}[r.Intn(6)]
+			who := []string{"a", "b", ""}[r.Intn(3)]
+			tenant := []string{"t1", "t2"}[r.Intn(2)]
+			ctx := context.WithValue(context.Background(), stackKey("status"), st)
+			ctx = context.WithValue(ctx, stackKey("who"), who)
+			ctx = context.WithValue(ctx, stackKey("tenant"), tenant)
+			req := httptest.NewRequest("GET", "/", nil).WithContext(ctx)
+			req.Method = m
+			func() {
+				defer func() {
+					if e := recover(); e != nil {
+						panicked = true
+					}
+				}()
+				h.ServeHTTP(httptest.NewRecorder(), req)
+			}()
+			reqs[q] = emit.Tup(emit.S(m), emit.I(st), emit.L([]string{emit.Pair(emit.S("who"), emit.S(who)), emit.Pair(emit.S("tenant"), emit.S(tenant))}))
+		}
+		ls := make([]string, nm)
+		impl := make([]string, nm)
+		for k := range lays {
+			cn := make([]string, len(lays[k].ctx))
+			for j, n := range lays[k].ctx {
+				cn[j] = emit.S(n)
+			}
+			ls[k] = emit.Tup(emit.B(lays[k].code), emit.B(lays[k].method), emit.L(cn))
+			var children []string
+			for _, mm := range c12Collect(vecs[k]) {
+				ps := make([]string, len(mm.Label))
+				for j, lp := range mm.Label {
+					ps[j] = emit.Pair(emit.S(lp.GetName()), emit.S(lp.GetValue()))
+				}
+				children = append(children, emit.Tup(emit.L(ps), emit.I(int(mm.Counter.GetValue()))))
+			}
+			sort.Strings(children)
+			impl[k] = emit.L(children)
+		}
+		w.Add(emit.C(7, emit.L(ls), emit.SL(nil), emit.L(reqs), emit.Tup(emit.B(panicked), emit.L(impl))), true,
+			fmt.Sprintf("middlewares:%d", nm), fmt.Sprintf("requests:%d", nreq))
 	}
 	if err := w.Flush(); err != nil {
 		return err
